@@ -284,7 +284,7 @@ def op_load_outcome(c):
     cls, name = 0, ""
     _AUDIT["on"] = True
     old_handler = signal.signal(signal.SIGALRM, _alarm)
-    signal.setitimer(signal.ITIMER_REAL, c.get("limit_s", 60))      # a runaway Python-level loop is cut here and reported through "ms"
+    signal.setitimer(signal.ITIMER_REAL, c.get("limit_s", 20))      # a runaway Python-level loop is cut here and reported through "ms"
     try:
         r = load_module(path)
         if not (isinstance(r, tuple) and len(r) == 7):
